@@ -1,7 +1,6 @@
 (* Live documents: what an edited tree prints, and that it re-reads to the content it reports. *)
 From V.model Require Import Base Deb822Lex Deb822Parse Grammar Lossy LossySpec Deb822Edit LiveDoc.
 From V.proofs Require Import BaseP GrammarLexP GrammarParseP GrammarAccP LossyRtP Deb822EditP.
-Set Default Timeout 60.
 
 (* ---- text ---- *)
 Lemma texts_opt_elem k s : texts (opt_elem k s) = s.
